@@ -491,3 +491,49 @@ M("C16", "pymbolic/interop/matchpy/__init__.py", """        return tuple(from_ma
 M("C16", "pymbolic/interop/matchpy/__init__.py", """        if len(operands) == 1 and isinstance(operands[0], tuple):
             operands, = operands
         object.__setattr__(self, "_operands", tuple(operands))""", """        object.__setattr__(self, "_operands", operands[0] if len(operands) == 1 and isinstance(operands[0], tuple) else (_ for _ in ()).throw(TypeError("TupleOp")))""", "revert-like of fix 0272831 (TupleOp re-creation fails)")
+
+M("C11", PR, """        if is_zero(item):
+            return 0
+        if is_zero(item - 1):
+            continue""", """        if is_zero(item):
+            return 0
+        if is_zero(item):
+            continue""", "flattened_product no longer drops 1 factors")
+M("C11", PR, """        if is_zero(item):
+            continue
+
+        if isinstance(item, Sum):
+            queue += item.children""", """        if is_zero(item - 1):
+            continue
+
+        if isinstance(item, Sum):
+            queue += item.children""", "flattened_sum drops 1 instead of 0")
+CF = "pymbolic/mapper/constant_folder.py"
+M("C11", CF, """            constant = reduce(op, constants)
+            return constructor((constant, *nonconstants))""", """            constant = reduce(op, constants[:2])
+            return constructor((constant, *nonconstants))""", "fold uses the first two constants only")
+M("C11", CF, """            if isinstance(child, klass):
+                queue = list(child.children) + queue""", """            if isinstance(child, klass):
+                queue = list(child.children[1:]) + queue""", "fold loses the first child of a nested node")
+CL = "pymbolic/mapper/collector.py"
+M("C11", CL, """            if mybase in base2exp:
+                base2exp[mybase] += myexp
+            else:
+                base2exp[mybase] = myexp""", """            base2exp[mybase] = myexp""", "exponents overwritten instead of added")
+M("C11", CL, """            term2coeff[term] = term2coeff.get(term, 0) + coeff""", """            term2coeff[term] = coeff""", "collector keeps only the last like term")
+DI = "pymbolic/mapper/distributor.py"
+M("C11", DI, """                rest = prod.children[len(leading)+1:]""", """                rest = prod.children[len(leading)+2:]""", "distribution drops a factor")
+M("C11", DI, """        if isinstance(newbase, Product):
+            return self.rec(pymbolic.flattened_product([
+                child**expr.exponent for child in newbase.children
+                ]))
+
+        if isinstance(expr.exponent, int) and expr.exponent > 0:""", """        if isinstance(expr.base, Product):
+            return self.rec(pymbolic.flattened_product([
+                child**expr.exponent for child in newbase
+                ]))
+
+        if isinstance(expr.exponent, int):""", "revert of fix e73e5b6 (map_power)")
+M("C11", CL, """        elif isinstance(mul_term, (Power, AlgebraicLeaf, Quotient)):""", """        elif isinstance(mul_term, (Power, AlgebraicLeaf)):""", "revert of fix 9a681b5 (quotient summand)")
+M("C11", DI, """                       dist(pymbolic.flattened_product(
+                           [*leading, sumchild, rest]))""", """                       pymbolic.flattened_product(leading) * dist(sumchild*rest)""", "revert of fix 1c69677 (leading factors)")
